@@ -304,6 +304,65 @@ pub fn cmd_worker(args: &[String]) -> i32 {
     let mut handled: BTreeSet<String> = BTreeSet::new();
     let mut i = start;
     while i < max_index && now_ms() < deadline {
+        if spec.id == "C19" && i % 4 == 3 {
+            // every fourth run of C19 drives the bounded index directly (txidx.rs): small windows, blocks without keys
+            use crate::txidx::{gen_idx_history, idx_signature, minimise_idx, run_idx, IdxReplay};
+            let seed = derive(root, "C19-txidx", i);
+            let h = gen_idx_history(seed);
+            let res = run_idx(&h);
+            out.runs += 1;
+            out.ops += res.ops;
+            for (k, v) in res.probes.iter() {
+                *out.probes.entry(format!("component:{k}")).or_insert(0) += v;
+            }
+            *out.probes.entry("component:index_history".into()).or_insert(0) += 1;
+            if res.nontrivial {
+                nontrivial.insert(fnv64(serde_json::to_string(&h).unwrap().as_bytes()));
+            }
+            if want_digests {
+                out.digests.insert(i * 4096, res.digest);
+            }
+            if let Some(f) = res.found.as_ref() {
+                let sig = idx_signature(spec.id, f);
+                if is_known_open(&known, spec.id, &sig).is_some() {
+                    *out.known_seen.entry(sig.clone()).or_insert(0) += 1;
+                } else if !handled.contains(&sig) && handled.len() < 4 {
+                    handled.insert(sig.clone());
+                    let min = minimise_idx(&h, &sig, 300);
+                    let detail = run_idx(&min).found.map(|f| f.detail).unwrap_or_else(|| f.detail.clone());
+                    let dir = verif_dir().join("replays");
+                    let _ = std::fs::create_dir_all(&dir);
+                    let path = dir.join(format!("{}-{}-{}.json", spec.id, seed, sig8(&sig)));
+                    let rf = IdxReplay {
+                        property: spec.id.to_string(),
+                        signature: sig.clone(),
+                        detail: detail.clone(),
+                        engine: "txindex".into(),
+                        idx_history: min,
+                    };
+                    std::fs::write(&path, serde_json::to_string_pretty(&rf).unwrap()).unwrap();
+                    let st = Command::new(std::env::current_exe().unwrap())
+                        .arg("--replay")
+                        .arg(&path)
+                        .stdout(Stdio::piped())
+                        .stderr(Stdio::piped())
+                        .output()
+                        .unwrap();
+                    if st.status.code() != Some(1) {
+                        eprintln!(
+                            "HARNESS ERROR: replay of {} in a fresh process did not reproduce (exit {:?})\n{}",
+                            path.display(),
+                            st.status.code(),
+                            String::from_utf8_lossy(&st.stdout)
+                        );
+                        std::process::exit(2);
+                    }
+                    out.violations.push((sig, path.to_string_lossy().to_string(), detail));
+                }
+            }
+            i += step;
+            continue;
+        }
         let base = history_for(spec, root, i);
         let mut todo: Vec<History> = vec![base.clone()];
         let mut planned = false;
@@ -1181,6 +1240,22 @@ pub fn cmd_replay(args: &[String]) -> i32 {
     warm_up();
     let Some(path) = args.first() else { return 2 };
     if let Ok(text) = std::fs::read_to_string(path) {
+        if let Ok(ir) = serde_json::from_str::<crate::txidx::IdxReplay>(&text) {
+            let res = crate::txidx::run_idx(&ir.idx_history);
+            let hit = res.found.filter(|f| crate::txidx::idx_signature(&ir.property, f) == ir.signature);
+            return match hit {
+                Some(f) => {
+                    println!("VIOLATION property={} replay={}", ir.property, path);
+                    println!("  signature: {}", ir.signature);
+                    println!("  at op #{}: {}", f.op_index, f.detail);
+                    1
+                }
+                None => {
+                    println!("replay {path}: violation with signature '{}' NOT reproduced", ir.signature);
+                    0
+                }
+            };
+        }
         if let Ok(sr) = serde_json::from_str::<crate::store::StoreReplay>(&text) {
             let res = crate::store::run_store_in_thread(&sr.store_history);
             let hit = res
@@ -1379,6 +1454,13 @@ pub fn cmd_one(args: &[String]) -> i32 {
         for f in o.found.iter() {
             println!("FOUND {} {} :: {}", f.property, f.signature, f.detail);
         }
+        return 0;
+    }
+    if spec.id == "C19" && idx % 4 == 3 {
+        let h = crate::txidx::gen_idx_history(derive(root_seed(), "C19-txidx", idx));
+        println!("{}", serde_json::to_string(&h).unwrap());
+        let res = crate::txidx::run_idx(&h);
+        println!("digest={:x} ops={} probes={:?} found={:?}", res.digest, res.ops, res.probes, res.found);
         return 0;
     }
     let h = history_for(spec, root_seed(), idx);
